@@ -157,6 +157,9 @@ class World:
     descriptor's API.  Returns 'ok' or the exception class name."""
     gin = self.gin
     sel = dotted(d['sel'])
+    if d['api'] == 'builtin':      # gin.macro / gin.constant / gin.singleton are registered by gin itself
+      self.desc[sel] = d
+      return 'ok'
     module, name = '.'.join(d['sel'][:-1]), d['sel'][-1]
     world = self
     is_cls = d['kind'] == 'cls'
@@ -200,6 +203,9 @@ class World:
     return 'ok'
 
   def callable_for(self, sel):
+    if self.desc[sel]['api'] == 'builtin':
+      with self.gin.config_scope(None):
+        return self.gin.get_configurable(sel)
     w = self.probes.get(sel)
     if w is None:
       # gin.register leaves the original untouched: the registry's version is reached by selector
@@ -238,7 +244,8 @@ class World:
     if isinstance(x, Result):
       return ['res', x.sel.split('.'), x.scope, self.map_to_spec(x.delivered)]
     if isinstance(x, NonLit):
-      return ['nonlit', x.name]
+      # identity matters: a constant must be delivered as that very object
+      return ['nonlit', x.name] if self.nonlits.get(x.name) is x else ['nonlit-copy', x.name]
     if isinstance(x, str):
       return ['lit', x]
     if isinstance(x, tuple) and len(x) == 2 and x[0] in ('cp', 'ck'):
@@ -371,6 +378,17 @@ class World:
       except (ValueError, KeyError) as e:
         res['status'] = type(e).__name__
         res['val'] = ['none']
+    elif op == 'DefineConstant':
+      name = dotted(o['name']) if o['valid'] else dotted(o['name']) + '..bad!'
+      try:
+        gin.constant(name, self.to_real(o['val']))
+        res['status'] = 'ok'
+      except ValueError as e:
+        res['status'] = 'ValueError'
+        res['msg'] = str(e)
+    elif op == 'SetInteractive':
+      (gin.enter_interactive_mode if o['on'] else gin.exit_interactive_mode)()
+      res['status'] = 'ok'
     elif op == 'Clear':
       try:
         gin.clear_config(clear_constants=o['clearConstants'])
@@ -388,6 +406,8 @@ class World:
       return repr(v[1])
     if t == 'ref':
       return '@' + '/'.join(list(v[2]) + [dotted(v[1])]) + ('()' if v[3] == 'call' else '')
+    if t == 'pct':
+      return '%' + dotted(v[1])
     if t == 'list':
       return '[' + ', '.join(self.literal_text(x) for x in v[1]) + ']'
     if t == 'tuple':
@@ -407,6 +427,8 @@ class World:
         gin.bind_parameter((scope, sel, param), self.to_real(o['val']))
       elif api == 'string':
         gin.bind_parameter('%s.%s' % (scoped, param), self.to_real(o['val']))
+      elif api == 'text' and sel == 'gin.macro' and param == 'value':
+        gin.parse_config('%s = %s' % (scope, self.literal_text(o['val'])))       # macro definition statement
       elif api == 'text':
         gin.parse_config('%s.%s = %s' % (scoped, param, self.literal_text(o['val'])))
       elif api == 'block':
@@ -476,6 +498,9 @@ class World:
                 stack=[list(s) for s in config._SCOPE_MANAGER.active_scopes],
                 cur=list(self.gin.current_scope()),
                 locked=bool(self.gin.config_is_locked()),
+                consts=set((k, core.jdump(self.to_spec(v))) for k, v in config._CONSTANTS.items() if k != 'gin.REQUIRED'),
+                interactive=bool(config._INTERACTIVE_MODE),
+                singles=set(config._SINGLETONS),
                 reg=set(k for k, _ in config._REGISTRY.items() if k not in self._reg_before),
                 nhooks=len(config._FINALIZE_HOOKS) - len(self._hooks_before))
 
@@ -518,7 +543,10 @@ def spec_projection(st):
   oper = set((scope_str(r['scope']), dotted(r['sel']), r['param'], core.jdump(r['val'])) for r in st['oper'])
   return dict(cfg=cfg, okeys=okeys, oper=oper, stack=[list(s) for s in st['stack']],
               cur=list(st['stack'][-1]), locked=bool(st['locked']),
-              reg=set(dotted(c['sel']) for c in st['reg']), nhooks=len(st['hooks']))
+              consts=set((dotted(k['name']), core.jdump(k['val'])) for k in st['consts']),
+              interactive=bool(st['interactive']),
+              singles=set(scope_str(x['key']) for x in st['singles']),
+              reg=set(dotted(c['sel']) for c in st['reg'] if c['api'] != 'builtin'), nhooks=len(st['hooks']))
 
 
 def norm_pairs(x):
@@ -541,6 +569,11 @@ def compare_out(want, got):
   if want['status'] != got['status']:
     return ('status', want['status'], got['status'] + (': ' + got.get('msg', '')[:200] if got.get('msg') else ''))
   if want['op'] == 'Call':
+    builtin = want['sel'][0] == 'gin'
+    if want['status'] == 'ok' and 'ret' in want and _norm_fnref(want['ret']) != _norm_fnref(got.get('ret')):
+      return ('ret', _norm_fnref(want['ret']), _norm_fnref(got.get('ret')))
+    if builtin:
+      return None
     if want['status'] == 'ok':
       for f in ('delivered', 'kw'):
         if norm_pairs(want[f]) != norm_pairs(got[f]):
@@ -561,7 +594,7 @@ def compare_out(want, got):
   return None
 
 
-ALL_FIELDS = ('cfg', 'okeys', 'oper', 'stack', 'cur', 'locked', 'reg', 'nhooks')
+ALL_FIELDS = ('cfg', 'okeys', 'oper', 'stack', 'cur', 'locked', 'reg', 'nhooks', 'consts', 'interactive', 'singles')
 
 
 def compare_state(want, got, fields=ALL_FIELDS):
